@@ -797,6 +797,11 @@ func (t *blockTree) parseStartingMarkers(line string, newParagraph bool) (string
 		}
 
 		m := itemStartingMarkerRegexp.FindStringSubmatch(line)
+		if m != nil && !newParagraph && strings.Trim(line[len(m[0]):], " \t") == "" {
+			// An empty list item cannot interrupt a paragraph, even when the
+			// marker is followed by spaces.
+			m = nil
+		}
 		if m == nil && newParagraph {
 			m = itemStartingMarkerBlankLineRegexp.FindStringSubmatch(line)
 		}
